@@ -34,7 +34,7 @@ var (
 	pool     []*PoolKey
 )
 
-const poolSize = 28
+const poolSize = 29
 
 // poolAll counts the keys beyond the general pool as well: k19 (self-signed) and k20 (CA-issued) have validity
 // windows that begin and end inside the simulated time span (2030-06-15T12:00Z..2031-06-15T12:00Z and the year 2020).
@@ -52,7 +52,7 @@ const poolAll = poolSize
 // beyond 65535 bytes); 19, 20 have short validity windows (see poolAll); 21..23 are self-signed certificates whose
 // distinguished names are encoded the way other tools encode them (UTF8String values with CN before O; an emailAddress
 // and a domainComponent attribute; a multi-valued RDN), so that re-encoding the parsed name does not give the same bytes; 24 and 25 are
-// RSA keys of 2049 and 2047 bits (modulus length not a multiple of 8); 26 and 27 are certificates issued with SHA-384 and SHA-512.
+// RSA keys of 2049 and 2047 bits (modulus length not a multiple of 8); 26 and 27 are certificates issued with SHA-384 and SHA-512; 28 has serial number 0.
 func Pool() []*PoolKey {
 	poolOnce.Do(func() {
 		dir := filepath.Join(verifRoot(), "fixtures", "keys")
